@@ -1288,6 +1288,15 @@ func (w *world) randomDelivery(s *Node) {
 	}
 }
 
+// setupRefused: an honest producer's own momentums lo..hi, delivered in ONE InsertChain call to a node whose frontier is
+// that chain's momentum `frontier`, were refused (or the call panicked) while the scenario was being set up. That is a failure
+// of the property ("a valid linked chain is adopted"), reported with the input; the history ends there.
+func setupRefused(out *Out, what string, lo, hi, frontier uint64, idx int, err error, p interface{}) {
+	out.Oracle(false, "insertchain-accepts-valid-linked-chain", M{"kind": "setup: " + what, "delivered_heights": fmt.Sprintf("%d..%d", lo, hi),
+		"receiver_frontier_height": U64(frontier), "index": idx, "refused_height": U64(lo + uint64(idx)), "err": fmt.Sprint(err), "panic": fmt.Sprint(p)})
+	out.Count("sync:setup-delivery-refused")
+}
+
 func runSync(rng *rand.Rand, n int, out *Out, _ []string) {
 	reproduced := false // the F11 reproducer runs in the first history whose local chain allows it
 	for h := 0; h < n; h++ {
@@ -1307,8 +1316,10 @@ func syncHistory(rng *rand.Rand, out *Out, first bool) (reproduced bool) {
 	w := &world{rng: rng, out: out, a: a, b: b, genuine: map[types.Hash][]byte{}}
 	n0 := 2 + rng.Intn(10)
 	grow(a, rng, n0)
-	if idx, err := BridgeOf(b).InsertChain(WireCopyAll(DetailedRange(a.Ch, 2, FrontierOf(a.Ch).Height))); err != nil {
-		panic(fmt.Sprint("prefix not accepted by b: ", idx, err))
+	if idx, err, p := tryInsertBr(BridgeOf(b), WireCopyAll(DetailedRange(a.Ch, 2, FrontierOf(a.Ch).Height))); err != nil || p != nil {
+		// a refused honest delivery is a verdict about the node, not a reason for the harness to stop
+		setupRefused(out, "common prefix of the two producers (one delivery to a fresh node)", 2, FrontierOf(a.Ch).Height, 1, idx, err, p)
+		return false
 	}
 	ka, kb := 1+rng.Intn(12), 1+rng.Intn(12)
 	deep := rng.Intn(3) == 0
@@ -1329,8 +1340,9 @@ func syncHistory(rng *rand.Rand, out *Out, first bool) (reproduced bool) {
 	if deep { // the local node sits exactly 29, 30 or 31 above the fork point
 		la = fpAB + 29 + uint64(rng.Intn(3))
 	}
-	if _, err, p := tryInsert(w.l, WireCopyAll(DetailedRange(a.Ch, 2, la))); err != nil || p != nil {
-		panic(fmt.Sprint("local chain not accepted: ", err, p))
+	if idx, err, p := tryInsert(w.l, WireCopyAll(DetailedRange(a.Ch, 2, la))); err != nil || p != nil {
+		setupRefused(out, "chain of the local node (one delivery to a fresh node)", 2, la, 1, idx, err, p)
+		return false
 	}
 	w.deliver(nil, "empty", a.Ch)
 	if deep && rng.Intn(2) == 0 {
@@ -1355,8 +1367,9 @@ func syncHistory(rng *rand.Rand, out *Out, first bool) (reproduced bool) {
 		fp := forkPoint(w.l.Ch, side.Ch)
 		if FrontierOf(w.l.Ch).Height == fp && FrontierOf(own.Ch).Height > fp && forkPoint(w.l.Ch, own.Ch) == fp {
 			// local must have own momentums above the fork point
-			if _, err, p := tryInsert(w.l, WireCopyAll(DetailedRange(own.Ch, fp+1, FrontierOf(own.Ch).Height))); err != nil || p != nil {
-				panic(fmt.Sprint("cannot extend local: ", err, p))
+			if idx, err, p := tryInsert(w.l, WireCopyAll(DetailedRange(own.Ch, fp+1, FrontierOf(own.Ch).Height))); err != nil || p != nil {
+				setupRefused(out, "extension of the local node's own branch", fp+1, FrontierOf(own.Ch).Height, fp, idx, err, p)
+				return false
 			}
 		}
 		if FrontierOf(w.l.Ch).Height-fp <= 30 && FrontierOf(w.l.Ch).Height > fp {
